@@ -13,6 +13,7 @@
 #include "sched.h"
 
 #include <algorithm>
+#include <mutex>
 
 struct top {
     std::string kind;
@@ -24,6 +25,15 @@ static std::string join(const std::vector<std::string>& v) {
     for (auto& x : v) s += " " + x;
     return s;
 }
+
+struct scan_rec {
+    std::size_t tid;
+    std::string args;
+    std::vector<std::pair<node_version64_body, node_version64*>> nv;
+};
+static std::mutex g_rec_mu;
+static std::vector<scan_rec> g_scans;
+static thread_local std::size_t g_cur_tid = 0;
 
 static std::string do_op(Token token, const top& o) {
     std::ostringstream out;
@@ -72,6 +82,10 @@ static std::string do_op(Token token, const top& o) {
             if (p == nullptr) out << "NULLPTR";
             else if (reinterpret_cast<std::uintptr_t>(p) > 0x100000000ULL) out << tohex(p, std::get<2>(e));
             else out << "w" << hx(reinterpret_cast<std::uintptr_t>(p));
+        }
+        {
+            std::lock_guard<std::mutex> lk(g_rec_mu);
+            g_scans.push_back(scan_rec{g_cur_tid, join(o.args), nv});
         }
         out << " ] nvn=" << nv.size();
         // the recorded (version, node) pairs, re-validated later by the driver: keep raw pointers
@@ -185,20 +199,32 @@ int main(int argc, char** argv) {
     }
     vsched::install();
     std::vector<std::function<void()>> bodies;
+    std::vector<Token> toks(threads.size());
     for (std::size_t t = 0; t < threads.size(); ++t) {
-        bodies.emplace_back([t, &threads] {
+        bodies.emplace_back([t, &threads, &toks] {
             Token tok{};
+            g_cur_tid = t;
             while (enter(tok) != status::OK) {}
+            toks[t] = tok;
             for (auto& o : threads[t]) {
                 vsched::note("inv " + std::to_string(t) + " " + o.kind + join(o.args));
                 std::string r = do_op(tok, o);
                 vsched::note("res " + std::to_string(t) + " " + r);
             }
-            leave(tok);
+            // the session stays open until the recorded node versions have been re-validated
         });
     }
     vsched::run(bodies);
     vsched::uninstall();
+    // once every operation has completed: re-validate the (version, node) pairs the scans collected
+    for (auto& sr : g_scans) {
+        bool stale = false;
+        for (auto& e : sr.nv)
+            if (e.second->get_stable_version() != e.first) stale = true;
+        std::cout << "REVAL " << sr.tid << " stale=" << stale << " nvn=" << sr.nv.size() << " args=" << sr.args << "\n";
+    }
+    for (auto tk : toks)
+        if (tk != nullptr) leave(tk);
 
     // ---- report
     std::cout << "SCHEDULE";
